@@ -648,6 +648,9 @@ func (ie IndexExpression) PrettyPrint(out *PrintState) *PrintState {
 	isDot := ie.Token.Type() == token.DOT
 	// 1.x would be read as the float `1.` followed by x.
 	_, leftIsInt := ie.Left.(*IntegerLiteral)
+	if fl, ok := ie.Left.(*FloatLiteral); ok && !strings.ContainsAny(fl.Literal(), ".eE") {
+		leftIsInt = true // an integer literal too big for int64 is a float node spelled without a dot.
+	}
 	if isDot && leftIsInt {
 		out.Print("(")
 	}
